@@ -34,6 +34,7 @@ import SwcVerif.Model.AlgoRunNodeBranch
 import SwcVerif.Model.AlgoRunMst
 import SwcVerif.Model.AlgoRunMstFront
 import SwcVerif.Model.AlgoRunSholl
+import SwcVerif.Model.AlgoRunNodeFeat
 import SwcVerif.Model.AlgoRunResample
 import SwcVerif.Model.AlgoRunRaster
 import SwcVerif.Model.AlgoRunParse
@@ -97,6 +98,7 @@ def dispatch (op : String) (args : List String) : String :=
   | "gmst" => AlgoRun.handleMst args
   | "gmstcall" => AlgoRun.handleMstCall args
   | "gsholl" => AlgoRun.handleSholl args
+  | "gnodefeat" => AlgoRun.handleNodeFeat args
   | "gpoprows" | "gpoprows3" => AlgoRun.handlePopRows (op == "gpoprows3") args
   | "giso" | "glin" | "gsmooth" => AlgoRun.handleResample op args
   | "gsamplers" | "gscene" | "graster" => AlgoRun.handleRaster op args
